@@ -140,8 +140,15 @@ def run(cx):
         for bi, si, s in casts_in(x):
             if s[2][1] in ("IntToInt", "FloatToFloat", "FloatToInt") and narrowing(s[2][1], s[2][3], s[2][4]):
                 bad.append("%s -> %s at %s:%d" % (s[2][3], s[2][4], x.file, s[3]))
+    # containers come back element by element: a text round trip (JSON.stringify + serde_json::from_str) re-parses every
+    # number from its decimal image, and serde_json's default float parser is not correctly rounded (1/11 comes back changed)
+    txt = [c for x in gs for c in x.calls() if re.search(r"json_stringify|serde_json::(de::)?from_(str|slice|reader)|serde_json::(ser::)?to_(string|vec)", c.q) and not c.exp]
+    rec = [c for x in gs for c in x.calls() if re.search(r"FromJs<'js>>::from_js$|::get::<.*ActValue.*>$|Object::<'js>::get|Array::<'js>::get|as rquickjs::FromJs", c.q)]
+    cx.ob("C14.R2", "from_js:no-text-round-trip", not txt and bool(rec),
+          "from_js rebuilds arrays / objects element by element (recursive from_js) and never through a JSON text%s" % (
+              "" if (not txt and rec) else " - but it calls %s" % sorted({short_name(c.q) for c in txt})), (txt or [None])[0].loc if txt else g.loc())
     cx.ob("C14.R2", "from_js:no-narrowing", not bad, "from_js contains no narrowing numeric cast (found %s)" % (bad or "none"), g.loc())
-    cx.floor("C14.R2", 7)
+    cx.floor("C14.R2", 8)
 
     # ---- R3 ---------------------------------------------------------------------------------------
     def patterns_in(h):
